@@ -395,8 +395,10 @@ class Env:
             value = 2.0 * src["value"]
         else:
             value = cast(typ, fn["value"])
-        if value is None or value == 0 or value is False or value == "":
-            raise Unspecified("callback returning a falsy value")
+        if value is None or (isinstance(value, str) and value == ""):
+            # zero and false are values like any other (C14: "for every value including zero,
+            # ... false"); only none and the empty string are left open
+            raise Unspecified("callback returning none or an empty string")
         node = new_node(path, typ, unit=st.get("unit"))
         node["value"] = value
         node["has_value"] = True
